@@ -12,6 +12,9 @@ Parts
                  both must keep agreeing bit for bit;
            (iii) integrate(t_current) leaves a full snapshot unchanged;
            (v)   the caller's y0 array and constants dict compare equal to deep copies taken before construction.
+  reset_fd_jacobian   (enumerated) implicit methods with the finite-difference Jacobian, float32 / float64, t0 = 0 and 0.25:
+           integrate(t0 + 1), an operation that rebuilds the integrator, integrate(), reset(), integrate() - bit for bit what
+           a fresh system gives (the rhs wrapper and its Jacobian machinery survive reset()).
   reset_after_blowup  (enumerated) every fixed-step explicit / splitting method x direction x dense x dt: run y' = y^2 past
            its pole (the state overflows without an exception), reset(), integrate a short span: bit for bit what a fresh
            system gives.
@@ -103,9 +106,23 @@ def _blowup_cases():
                     yield dict(part="reset_after_blowup", method=method, direction=direction, dense=dense, dt=dt, t0=0.0 if direction > 0 else 1.0)
 
 
+def _fd_cases():
+    """reset() versus a fresh system when the finite-difference Jacobian machinery (which lives in the rhs wrapper and
+    survives reset()) has been asked at times other than t0 before: implicit methods x {float32, float64} x t0 in {0, 0.25}
+    x stiffness x state x the operation that rebuilds the integrator between the two calls"""
+    for method in ["LobattoIIIC4", "RadauIIA5", "ImplicitMidpoint", "BackwardEuler", "GaussLegendre4", "CrankNicolson"]:
+        for dtype in ("float32", "float64"):
+            for t0 in (0.0, 0.25):
+                for mu in (2.0, 5.0):
+                    for y0 in ([2.0, 0.0], [0.5, -1.0], [-1.5, 0.75]):
+                        for mid in ("set_rtol", "set_atol", "set_method", "set_dt"):
+                            yield dict(part="reset_fd_jacobian", method=method, dtype=dtype, t0=t0, mu=mu, y0=y0, mid=mid)
+
+
 def parts(tier):
     q = tier == "quick"
     return [Part("reset_after_blowup", enumerate=_blowup_cases, timeout=120, exhaustive=True),
+            Part("reset_fd_jacobian", enumerate=_fd_cases, timeout=300, exhaustive=True),
             Part("history", strategy=_history(), examples=300 if q else 6000, timeout=600),
             Part("split", strategy=_split(), examples=300 if q else 6000, timeout=300)]
 
@@ -415,7 +432,55 @@ def _check_blowup(case):
     return viols, dict(nontrivial=bool(blown), labels=["blowup:" + method, "blown" if blown else "not_blown"])
 
 
+def _check_fd(case):
+    import desolver as de
+    method = case["method"]
+    dt = np.float32 if case["dtype"] == "float32" else np.float64
+    tol = 1e-3 if case["dtype"] == "float32" else 1e-6
+    attrs = dict(method=method, family=M.family(M.get(method)), dtype=case["dtype"])
+    mu = case["mu"]
+
+    def rhs(t, y, **kw):       # forced van der Pol; no user Jacobian: the wrapper differentiates numerically
+        return np.array([y[1], mu * (1 - y[0] ** 2) * y[1] - y[0] + 0.5 * np.cos(t)], dtype=y.dtype)
+
+    def build():
+        a = de.OdeSystem(rhs, y0=np.array(case["y0"], dtype=dt), t=(case["t0"], case["t0"] + 2.0), dt=0.1, rtol=tol, atol=tol)
+        a.method = M.get(method)
+        return a
+
+    def run(a, target=None):
+        try:
+            a.integrate(target) if target is not None else a.integrate()
+            return "ok"
+        except de.exception_types.FailedIntegration as e:
+            return "failed:" + type(e.__cause__).__name__
+    a = build()
+    r1 = run(a, dt(case["t0"] + 1.0))
+    if case["mid"] == "set_rtol":
+        a.rtol = a.rtol
+    elif case["mid"] == "set_atol":
+        a.atol = a.atol
+    elif case["mid"] == "set_method":
+        a.method = M.get(method)
+    else:
+        a.dt = float(a.dt)
+    r2 = run(a)
+    a.reset()
+    ra = run(a)
+    fresh = build()
+    rb = run(fresh)
+    viols = []
+    ta, ya, tb, yb = np.asarray(a.t), np.asarray(a.y), np.asarray(fresh.t), np.asarray(fresh.y)
+    if ra != rb or len(ta) != len(tb) or not np.array_equal(ta, tb) or not np.array_equal(ya, yb, equal_nan=True):
+        k = int(np.argmax(np.any(ya[:min(len(ya), len(yb))] != yb[:min(len(ya), len(yb))], axis=1))) if len(ya) and len(yb) else 0
+        viols.append(V("reset_vs_fresh", "{} ({}, t0 = {}): integrate(t0 + 1), {}, integrate(), reset(), integrate() gives {} / {} samples; a fresh system gives {} / {} samples; first differing sample {} ({} vs {})".format(
+            method, case["dtype"], case["t0"], case["mid"], ra, len(ta), rb, len(tb), k, ya[k].tolist() if k < len(ya) else None, yb[k].tolist() if k < len(yb) else None), "fd_jacobian", **attrs))
+    return viols, dict(nontrivial=bool(r1 == "ok" and r2 == "ok" and ra == "ok"), labels=["reset_fd:" + method, "reset_fd:" + case["dtype"], "first_run:" + r1.split(":")[0]])
+
+
 def check(case):
+    if case["part"] == "reset_fd_jacobian":
+        return _check_fd(case)
     if case["part"] == "reset_after_blowup":
         return _check_blowup(case)
     return _check_history(case) if case["part"] == "history" else _check_split(case)
